@@ -491,6 +491,14 @@ func c13GlobalOps(spec c13GlobalSpec, descs []any) []c13Op {
 			ops = append(ops, c13Op{fmt.Sprintf("%s.ParseFloat#%d", ug.name, i), func(any) string {
 				return c13Outcome(func() (any, error) { return ug.u.ParseFloat(txt) })
 			}})
+			// strings that are not unit strings take the error path (which lists the valid units)
+			bad := wk.Pick(r, []string{"12 zorks", "x", "5 5 5", "1..2", "-"})
+			ops = append(ops, c13Op{fmt.Sprintf("%s.ParseInt(malformed)#%d", ug.name, i), func(any) string {
+				return c13Outcome(func() (any, error) { return ug.u.ParseInt(bad) })
+			}})
+			ops = append(ops, c13Op{fmt.Sprintf("%s.ParseFloat(malformed)#%d", ug.name, i), func(any) string {
+				return c13Outcome(func() (any, error) { return ug.u.ParseFloat(bad) })
+			}})
 			ops = append(ops, c13Op{fmt.Sprintf("%s.FormatShortInt#%d", ug.name, i), func(any) string {
 				return c13Outcome(func() (any, error) { return ug.u.FormatShortInt(n), nil })
 			}})
